@@ -94,6 +94,8 @@ pub enum SPat {
     Alternating,
     Random,
     Zero,
+    /// every polynomial vanishes at one NTT point or on one aligned group of 16 (constructed, in range)
+    NttSparse,
 }
 #[derive(Debug, Clone, Copy, PartialEq, Eq)]
 pub enum T0Pat {
@@ -104,20 +106,29 @@ pub enum T0Pat {
     Zero,
     /// the given percentage of coefficients at a random range extreme, the rest uniformly random
     PartialExtremes(u8),
+    /// every polynomial vanishes at one NTT point or on one aligned group of 16 (constructed, in range)
+    NttSparse,
 }
 
 pub fn s_poly(g: &mut Prng, eta: i64, pat: SPat) -> Poly {
+    if pat == SPat::NttSparse {
+        return ntt_sparse_poly(g, -eta, eta);
+    }
     core::array::from_fn(|i| match pat {
         SPat::AllMinus => -eta,
         SPat::AllPlus => eta,
         SPat::Alternating => if i % 2 == 0 { eta } else { -eta },
         SPat::Random => g.range(-eta, eta),
         SPat::Zero => 0,
+        SPat::NttSparse => unreachable!(),
     })
 }
 
 pub fn t0_poly(g: &mut Prng, pat: T0Pat) -> Poly {
     let top = 1i64 << 12;
+    if pat == T0Pat::NttSparse {
+        return ntt_sparse_poly(g, -top + 1, top);
+    }
     core::array::from_fn(|_| match pat {
         T0Pat::AllTop => top,
         T0Pat::AllBottom => -top + 1,
@@ -131,6 +142,7 @@ pub fn t0_poly(g: &mut Prng, pat: T0Pat) -> Poly {
                 g.range(-top + 1, top)
             }
         }
+        T0Pat::NttSparse => unreachable!(),
     })
 }
 
@@ -211,6 +223,17 @@ pub fn forge_degenerate(
         sig[off..].copy_from_slice(hb);
     }
     sig
+}
+
+/// As forge_degenerate, but for an explicitly given message representative mu (to build signatures that
+/// are valid under a *wrong* model of how mu is derived).
+pub fn forge_degenerate_mu(p: &Params, rho: &[u8], mu: &[u8], z: &[Poly], h: &[Poly]) -> Vec<u8> {
+    let t1 = vec![r::ZERO; p.k];
+    let wa = r::w_approx(p, rho, &t1, &r::ZERO, z);
+    let w1: Vec<Poly> =
+        (0..p.k).map(|i| core::array::from_fn(|n| r::use_hint(p.gamma2, h[i][n], wa[i][n]))).collect();
+    let c_tilde = r::h(&[mu, &r::w1_encode(p, &w1)], p.lambda / 4);
+    r::sig_encode(p, &c_tilde, z, h)
 }
 
 /// Response vector with small random coefficients and one planted coefficient.
@@ -500,4 +523,59 @@ pub fn poly_zero_ntt_group(g: &mut Prng, lo: i64, hi: i64, k: usize, classes: us
     let fh = r::ntt(&f);
     debug_assert!(fh[16 * k..16 * k + 16].iter().all(|&c| c == 0));
     f
+}
+
+
+/// A dense polynomial with coefficients in [lo, hi] that vanishes at the NTT point of output slot `slot`
+/// (Algorithm 41 order): f(root) = 0 (mod q), every other NTT coefficient non-zero with overwhelming
+/// probability. Random walk: one coefficient is redrawn per step (the weighted sum is updated in O(1))
+/// until the constant coefficient that cancels the sum falls into the range (probability (hi-lo+1)/q).
+pub fn poly_zero_ntt_slot(g: &mut Prng, lo: i64, hi: i64, slot: usize) -> Poly {
+    let mut x1 = r::ZERO;
+    x1[1] = 1;
+    let root = r::ntt(&x1)[slot];
+    let mut pw = [1i64; 256];
+    for i in 1..256 {
+        pw[i] = pw[i - 1] * root % r::Q;
+    }
+    let span = (hi - lo + 1) as u64;
+    let mut f = r::ZERO;
+    let mut acc = 0i64;
+    for i in 1..256 {
+        f[i] = lo + g.below(span) as i64;
+        acc = (acc + f[i] * pw[i]).rem_euclid(r::Q);
+    }
+    loop {
+        let mut a0 = (r::Q - acc) % r::Q;
+        if a0 > r::Q / 2 {
+            a0 -= r::Q;
+        }
+        if a0 >= lo && a0 <= hi {
+            f[0] = a0;
+            break;
+        }
+        let j = 1 + g.below(255) as usize;
+        let new = lo + g.below(span) as i64;
+        acc = (acc + (new - f[j]) * pw[j]).rem_euclid(r::Q);
+        f[j] = new;
+    }
+    debug_assert_eq!(r::ntt(&f)[slot], 0);
+    f
+}
+
+/// One of: zero at a single NTT slot (first, last, random) or on an aligned group of 16 slots.
+pub fn ntt_sparse_poly(g: &mut Prng, lo: i64, hi: i64) -> Poly {
+    match g.below(4) {
+        0 => poly_zero_ntt_slot(g, lo, hi, 0),
+        1 => poly_zero_ntt_slot(g, lo, hi, 255),
+        2 => {
+            let s = g.below(256) as usize;
+            poly_zero_ntt_slot(g, lo, hi, s)
+        }
+        _ => {
+            let k = g.below(16) as usize;
+            let classes = if hi - lo < 16 { 2 } else { 16 };
+            poly_zero_ntt_group(g, lo, hi, k, classes)
+        }
+    }
 }
